@@ -1,28 +1,9 @@
-"""Per-property configuration of bin/check: driver, flavours, shards, floors, evidence texts."""
-
-STD_ASSUME = [
-    "the library observed is /repo's working tree compiled by bin/buildlib.py with -DLIBPHYSICA_VERIF (hooks on), g++ 12, -O2 (rel) and -O1 + ASan/UBSan (asan)",
-    "verdicts are functions of (working tree, VERIF_SEED, tier); only inputs the generators produced were observed",
-]
+"""Per-property configuration of bin/check: one module per property in bin/propdefs/ (driver, flavours, shards, floors, evidence texts)."""
+import importlib
+import os
 
 PROPS = {}
-
-PROPS["C10"] = {
-    "driver": "c10_guards",
-    "flavours": [("asan", 1.0), ("rel", 1.0)],
-    "shards": {"quick": 16, "thorough": 16},
-    "rule": "catalogue of guarded entry points (one isolated child per request, each request is one side of one guard: "
-            "index size-1/size/size+1/UINT_MAX, shapes equal/transposed/off-by-one, x at/inside/outside the 1% edge tolerance, "
-            "tables of length 0..3, method names +- one character, parameters at/beyond their range, list lengths) plus random "
-            "requests around 12 parametrised guard families; every request is non-trivial; distinct = distinct request text",
-    "floors": {"quick": {"cases": 1500, "distinct_nontrivial": 700}, "thorough": {"cases": 30000, "distinct_nontrivial": 5000}},
-    "exhaustive": {"quick": ["the guard catalogue (every entry run in both flavours)"], "thorough": ["the guard catalogue (every entry run in both flavours)"]},
-    "technique": "runtime monitoring: one forked child per request under gcc ASan+UBSan, process-outcome oracle (exit status, diagnostic bytes, sanitizer reports)",
-    "level_text": "Every catalogued guard (both sides) and thousands of random requests around 12 guard families were executed against the real "
-                  "library in an ASan+UBSan build and an -O2 build; each outcome (returned / exit(EXIT_FAILURE)+diagnostic / other exit / signal / sanitizer report) "
-                  "was classified by the parent. Exploration: it shows the property on the requests run, not on all inputs.",
-    "level_note": "Trusted: the catalogue's classification of a request as meaningful or not (written from the property text), gcc's ASan/UBSan "
-                  "(red-zone based: non-adjacent overruns are invisible), fork/pipe plumbing of harness/common/verif.hpp.",
-    "assumptions": STD_ASSUME + ["a request is 'meaningful' or not according to the catalogue written from the property text; "
-                                 "ASan/UBSan red zones see adjacent overruns only"],
-}
+_d = os.path.join(os.path.dirname(os.path.abspath(__file__)), "propdefs")
+for _f in sorted(os.listdir(_d)):
+    if _f.startswith("C") and _f.endswith(".py"):
+        PROPS[_f[:-3]] = importlib.import_module("propdefs." + _f[:-3]).PROP
